@@ -1,6 +1,105 @@
 import OtelVerif.Common.Line
 import OtelVerif.Model.C06
-/-! driver for C06 (stub) -/
-def main : IO UInt32 := do
-  IO.eprintln "drv_c06: not built yet"
-  return 2
+/-! driver for C06: models `c06-fan` (fan-out consumer) and `c06-graph` (pipeline capabilities) -/
+open OtelVerif OtelVerif.Line OtelVerif.C06
+
+namespace OtelVerif.Drivers.C06
+
+def parseBits (s : String) : Option (List Bool) :=
+  if s = "-" then some [] else
+  s.toList.mapM (fun c => if c = '1' then some true else if c = '0' then some false else none)
+
+def showObj : Obj → String
+  | .orig => "o"
+  | .clone k => s!"c{k}"
+
+def b01 (b : Bool) : String := if b then "1" else "0"
+
+structure FS where
+  caps : List Bool := []
+  implCalls : List (Nat × String × Bool) := []   -- consumer, object name, ro flag (current op)
+  fails : List String := []
+
+/-- exclusivity and read-only marking judged directly on the implementation's `obs call` lines -/
+def judge (s : FS) : List String :=
+  let calls := s.implCalls
+  let isMut (c : Nat) : Bool := s.caps[c]? == some true
+  let dupMut := calls.any (fun a => isMut a.1 && (calls.filter (fun b => b.2.1 == a.2.1)).length > 1)
+  let sharedNotRO := calls.any (fun a => !isMut a.1 && !a.2.2 &&
+      (calls.filter (fun b => !isMut b.1 && b.2.1 == a.2.1)).length > 1)
+  (if dupMut then ["sig=C06/fanout/mutator-object-shared"] else []) ++
+  (if sharedNotRO then ["sig=C06/fanout/shared-not-readonly"] else [])
+
+def fanHandler : Handler FS where
+  init := {}
+  onOp := fun s toks =>
+    let s := { s with fails := s.fails ++ judge s, implCalls := [] }
+    match toks with
+    | "fan" :: rest =>
+      match (kv rest "caps").bind parseBits, (kv rest "fail").bind parseBits, (kv rest "syncw").bind parseBits,
+            kvNat rest "ro", kvInt rest "undecl" with
+      | some caps, some fail, some syncw, some ro, some undecl =>
+        let inputRO := ro = 1
+        let syncW : Nat → Option Nat := fun c =>
+          if ((caps[c]? == some true) && (syncw[c]? == some true)) || (Int.ofNat c == undecl) then some (100 + c) else none
+        let ds := deliveries caps inputRO
+        let (h, seen) := runFan caps inputRO 0 syncW
+        let ws := (List.range caps.length).filterMap (fun i => if caps[i]? == some true then some (i, 200 + i) else none)
+        let hf := asyncWrites ds h ws
+        let callLines := seen.map (fun x =>
+          s!"obs call {x.consumer} {showObj x.obj} ro={b01 x.ro} eq={b01 (x.atCall == some 0)} panic={b01 x.panicked}")
+        let nerr := (errorsOf ds (fun c => fail[c]? == some true)).length
+        let afters := (List.range caps.length).map (fun i =>
+          match objOf ds i with
+          | none => s!"obs after {i} missing"
+          | some o =>
+            if caps[i]? == some true then s!"obs after {i} excl={b01 (hf.read o == some (200 + i))}"
+            else s!"obs after {i} eq={b01 (hf.read o == some 0)}")
+        ({ s with caps := caps }, [s!"obs cap {b01 (fanCap caps)}"] ++ callLines ++ [s!"obs err {nerr}"] ++ afters)
+      | _, _, _, _, _ => (s, ["obs bad-op"])
+    | _ => (s, ["obs bad-op"])
+  onObs := fun s toks =>
+    match toks with
+    | [_, "call", c, obj, ro, _, _] =>
+      match c.toNat? with
+      | some c => { s with implCalls := s.implCalls ++ [(c, obj, ro == "ro=1")] }
+      | none => s
+    | _ => s
+  onEnd := fun s =>
+    let fails := s.fails ++ judge s
+    match fails with
+    | [] => ["prop isolation=ok"]
+    | f :: _ => [s!"prop isolation=FAIL {f}"]
+
+/-- `c06-graph`: pipelines are announced leaves first.
+`op pipe id=<name> procs=<bits> exps=<bits of plain exporters> conn=-|<base>:<next1>,<next2>` → `obs cap <b>`;
+a connector in exporter position contributes `aggregateCap base (caps of its next pipelines)`.
+Exporter order inside the fan-out is irrelevant (`C06_fanCap_all`). -/
+def graphHandler : Handler (List (String × Bool)) where
+  init := []
+  onOp := fun known toks =>
+    match toks with
+    | "pipe" :: rest =>
+      match kv rest "id", (kv rest "procs").bind parseBits, (kv rest "exps").bind parseBits, kv rest "conn" with
+      | some id, some p, some e, some conn =>
+        let connCap : Option (List Bool) :=
+          if conn = "-" then some [] else
+          match conn.splitOn ":" with
+          | [b, nx] =>
+            let names := (nx.splitOn ",").filter (· ≠ "")
+            match names.mapM (fun n => known.lookup n) with
+            | some caps => some [aggregateCap (b = "1") caps]
+            | none => none
+          | _ => none
+        match connCap with
+        | some cc =>
+          let cap := pipelineCap p (e ++ cc)
+          ((id, cap) :: known, [s!"obs cap {b01 cap}"])
+        | none => (known, ["obs bad-op"])
+      | _, _, _, _ => (known, ["obs bad-op"])
+    | _ => (known, ["obs bad-op"])
+
+end OtelVerif.Drivers.C06
+
+def main : IO UInt32 :=
+  runMulti [("c06-fan", run OtelVerif.Drivers.C06.fanHandler), ("c06-graph", run OtelVerif.Drivers.C06.graphHandler)]
